@@ -55,7 +55,7 @@ def BOUNDS(tier):
 
 
 def REQUIRED_COVER(tier):
-    return {'pool:plain', 'pool:dict', 'pool:msg', 'ev:store_bits_of', 'ev:a_append', 'ev:s_refs_pop', 'battery-rearrival', 'order:reversed', 'schedules'}
+    return {'pool:plain', 'pool:dict', 'pool:msg', 'ev:store_bits_of', 'ev:a_append', 'ev:s_refs_pop', 'battery-rearrival', 'order:reversed', 'schedules', 'ctor-schedule'}
 
 
 # ------------------------------------------------------------------ reference (functional) pool
@@ -679,7 +679,105 @@ def shards(tier, seed):
         sp = 2 if tier == 'quick' else 8
         for part in range(sp):
             out.append({'fn': 'shard_schedules', 'args': {'kind': kind, 'depth': 3 if tier == 'quick' else 4, 'length': 3 if tier == 'quick' else 4, 'part': part, 'parts': sp}, 'prio': 1})
+    for kind in ('lib', 'pruned'):
+        cp = 2 if tier == 'quick' else 8
+        for part in range(cp):
+            out.append({'fn': 'shard_ctor_schedules', 'args': {'kind': kind, 'length': 3 if tier == 'quick' else 4, 'part': part, 'parts': cp}, 'prio': 1})
     return out
+
+
+# ------------------------------------------------------------------ construction schedules (sixth session)
+# Cells with the SAME data bits that are different cells (an ordinary cell and a library / pruned-branch cell holding exactly the same
+# bits), made one after the other through every constructor the library has: nothing may be carried from one construction to the next
+# (an interning table, a memo of hashes ...), whatever the order.  All sequences of <= L constructor calls; every sequence works on
+# content no earlier sequence has used, every produced cell is compared with the reference model when it is made and again at the end.
+CTOR_ROUTES = ['builder', 'ctor', 'ctor_plain', 'boc', 'slice', 'copy']
+
+
+def _construct(route, bits, special):
+    from bitarray import bitarray
+    from pytoniq_core.boc import Cell, Builder
+    from pytoniq_core.boc.tvm_bitarray import TvmBitarray
+    t = int(bits[:8], 2) if special else -1
+    if route == 'builder':
+        return (Builder(type_=t) if special else Builder()).store_bits(bits).end_cell()
+    if route == 'ctor':
+        ba = TvmBitarray(1023)
+        ba.extend(bits)
+        return Cell(ba, [], t)
+    if route == 'ctor_plain':
+        return Cell(bitarray(bits), [], t)
+    if route == 'boc':
+        return Cell.one_from_boc(RB.encode([RC.RCell(bits, (), special)]))
+    base = (Builder(type_=t) if special else Builder()).store_bits(bits).end_cell()
+    if route == 'slice':
+        return base.begin_parse().to_cell()
+    if route == 'copy':
+        return base.copy()
+    raise ValueError(route)
+
+
+def _twin_bits(kind, tag, seed):
+    from .common import filler
+    h = ''.join(format(b, '08b') for b in filler(seed, f'c08-twin-{tag}', 32))
+    if kind == 'lib':
+        return '00000010' + h
+    return '00000001' + '00000001' + h + format(7, '016b')
+
+
+def case_ctor_schedule(rec, kind, seq, tag=None):
+    """seq: list of [route, special]"""
+    rec.case('ctor-schedule')
+    tag = tag if tag is not None else '/'.join(f'{r}{int(sp)}' for r, sp in seq)
+    bits = _twin_bits(kind, tag, rec.seed)
+    args = {'kind': kind, 'seq': [list(x) for x in seq], 'tag': tag}
+    made = []
+    rec.state(('ctor-schedule', kind, tuple(tuple(x) for x in seq)))
+    rec.nontriv(('ctor-schedule', kind, tuple(tuple(x) for x in seq)))
+
+    def describe(c):
+        return (c.type_, c.is_exotic, c.bits.to01(), c.hash, c.level_mask.mask, tuple(c.get_hash(l) for l in range(4)), tuple(c.get_depth(l) for l in range(4)),
+                bytes(c.to_boc()))
+
+    def expected(special):
+        r = RC.RCell(bits, (), bool(special))
+        return ((r.type if special else -1), bool(special), bits, r.hash(), r.mask, tuple(r.hash(l) for l in range(4)), tuple(r.depth(l) for l in range(4)),
+                bytes(RB.encode([r])))
+    for k, (route, special) in enumerate(seq):
+        rec.trans()
+        try:
+            c = _construct(route, bits, special)
+            got = describe(c)
+        except Exception as e:
+            rec.violation(f'ctor-schedule:raises:{route}', f'{kind} twin, constructor calls {seq}: call #{k} raised {exc_name(e)}: {e}', 'case_ctor_schedule', args)
+            return
+        made.append((c, special, route))
+        for j, (cj, spj, rj) in enumerate(made):
+            want = expected(spj)
+            got = describe(cj)
+            if got != want:
+                what = next(n for n, a, b in zip(('type_', 'is_exotic', 'bits', 'hash', 'level mask', 'hash(l)', 'depth(l)', 'to_boc'), got, want) if a != b)
+                rec.violation(f'ctor-schedule:{what}', f'{kind} twin ({"exotic" if spj else "ordinary"} cell made by {rj} as call #{j}), constructor calls {seq}: after call #{k} its {what} is '
+                              f'not the one of that cell (something is carried over between constructions of cells with equal data bits)', 'case_ctor_schedule', args)
+                rec.outcome('CARRIED-OVER')
+                return
+        rec.trace()
+    rec.covered('ctor-schedule')
+    rec.outcome('ctor-ok')
+
+
+def shard_ctor_schedules(rec, kind, length, part, parts):
+    calls = [[r, sp] for r in CTOR_ROUTES for sp in (False, True)]
+    i = 0
+    for n in range(2, length + 1):
+        for seq in itertools.product(calls, repeat=n):
+            i += 1
+            if i % parts != part:
+                continue
+            if len({sp for _, sp in seq}) < 2:
+                continue        # the schedule has to make both twins
+            case_ctor_schedule(rec, kind, [list(x) for x in seq])
+    rec.sample({'ctor_schedule': [['builder', False], ['builder', True]], 'twin': kind})
 
 
 # ------------------------------------------------------------------ observation schedules
